@@ -174,7 +174,7 @@ def member_functions(src, lo, hi, name):
         else:
             continue   # declaration only, `= delete`, `= default`
         b1 = match_brace(src, b0)
-        res.append(dict(params=params, quals=quals, body=src[b0 + 1:b1], init=init, line=line_of(src, m.start()), ret=ret))
+        res.append(dict(params=params, quals=quals, body=src[b0 + 1:b1], init=init, line=line_of(src, m.start()), end_line=line_of(src, b1), ret=ret))
     return res
 
 
@@ -1539,7 +1539,7 @@ def translate_one(lean_name, region, cpp, sel, kind):
         raise TranslateError(f"{rel}:{cpp}: the overloads {[t[0]['line'] for t in texts]} differ:\n" + "\n---\n".join(x[0] for x in rendered))
     fn = texts[0][0]
     doc = f"/-- {rel}:{', '.join(str(t[0]['line']) for t in texts)}  `{cpp}({' '.join(fn['params'].split())}) {fn['quals']}` -/"
-    return doc + "\n" + rendered[0][0], dict(lean=lean_name, file=rel, lines=[t[0]["line"] for t in texts], cpp=cpp, asserts=len(texts[0][2].asserts),
+    return doc + "\n" + rendered[0][0], dict(lean=lean_name, file=rel, lines=[t[0]["line"] for t in texts], extents=[[t[0]["line"], t[0]["end_line"]] for t in texts], cpp=cpp, asserts=len(texts[0][2].asserts),
                                              untranslated_asserts=texts[0][2].untranslated, result=rendered[0][1])
 
 
@@ -1566,7 +1566,7 @@ def member_functions_op(src, lo, hi, op):
             continue
         b0 = tail[3] - 1
         b1 = match_brace(src, b0)
-        res.append(dict(params=src[p0 + 1:p1], quals=tail[0], body=src[b0 + 1:b1], init=None, line=line_of(src, m.start()), ret=tail[1]))
+        res.append(dict(params=src[p0 + 1:p1], quals=tail[0], body=src[b0 + 1:b1], init=None, line=line_of(src, m.start()), end_line=line_of(src, b1), ret=tail[1]))
     return res
 
 
